@@ -25,7 +25,7 @@ import time
 
 from vf.core import Check, REPO, HarnessError, lean_str, lean_bool
 
-MODULES = ["Model.Str", "Model.StrLex", "Proofs.Str", "Proofs.StrFast", "Proofs.Comment", "Proofs.StrLex", "Generated.C04", "Properties.C04"]
+MODULES = ["Model.Str", "Model.StrLex", "Model.StrDerive", "Proofs.Str", "Proofs.StrDerive", "Proofs.StrFast", "Proofs.Comment", "Proofs.StrLex", "Generated.C04", "Properties.C04"]
 P = "SqlglotModel.Properties.C04."
 THEOREMS = [P + n for n in [
     "string_roundtrip",
@@ -50,6 +50,12 @@ THEOREMS = [P + n for n in [
     "generated_dispatch",
     "generated_identifier_sites",
     "generated_quoting_overrides",
+    "derived_inverse_pairs",
+    "derived_printable_filter",
+    "derived_default_kept",
+    "derived_wf_inverse_condition",
+    "generated_escape_derivation",
+    "generated_cfg_tables_derived",
     "generated_wf_byte_raw",
     "generated_wf",
     "generated_wf_fast",
@@ -491,11 +497,75 @@ def quoting_overrides() -> tuple:
     return sorted(ovr), sorted(set(sites)), sorted(trf)
 
 
+def esc_records(chk: Check) -> tuple:
+    """class-body inputs of the `_Dialect` metaclass derivation and the derived tables the live classes hold"""
+    import inspect
+    import importlib
+
+    _, _, Dialect, *_ = sg()
+    ddef = importlib.import_module("sqlglot.dialects.dialect")
+    dflt = list(ddef.UNESCAPED_SEQUENCES.items())
+
+    def pairs(items, what):
+        out = []
+        for k, v in items:
+            if not (one(k, 2) and one(v)):
+                raise Shape(f"{what}: entry {k!r}: {v!r} is not 2 chars -> 1 char")
+            out.append((k[0], k[1], v))
+        return out
+
+    recs = []
+    classes = {}
+    for name in dialect_names():
+        cls = type(Dialect.get_or_raise(name or None))
+        for c in cls.__mro__:
+            if isinstance(c, type(Dialect)) and c.__name__ not in classes:
+                classes[c.__name__] = c
+    for cname, cls in sorted(classes.items()):
+        body = None
+        try:
+            tree = ast.parse(open(inspect.getsourcefile(cls), encoding="utf-8").read())
+            mod = importlib.import_module(cls.__module__)
+            for node in tree.body:
+                if isinstance(node, ast.ClassDef) and node.name == cls.__name__:
+                    for st in node.body:
+                        tgt = st.targets[0] if isinstance(st, ast.Assign) else (st.target if isinstance(st, ast.AnnAssign) else None)
+                        val = getattr(st, "value", None)
+                        if isinstance(tgt, ast.Name) and tgt.id == "UNESCAPED_SEQUENCES" and val is not None:
+                            body = eval(compile(ast.Expression(val), "<c04>", "eval"), dict(vars(mod)))  # noqa: S307 (repo source)
+        except Exception as e:  # noqa
+            raise Shape(f"{cname}: cannot read the class body ({e!r})")
+        if body is None:
+            parents = [c for c in cls.__mro__[1:] if hasattr(c, "UNESCAPED_SEQUENCES")]
+            body = dict(parents[0].UNESCAPED_SEQUENCES) if parents else {}
+        tk = cls.tokenizer_class
+        for e in list(tk.STRING_ESCAPES) + list(tk.BYTE_STRING_ESCAPES):
+            if not one(e):
+                raise Shape(f"{cname}: multi-character escape {e!r}")
+        un = pairs(cls.UNESCAPED_SEQUENCES.items(), cname + ".UNESCAPED_SEQUENCES")
+        for v, k in cls.ESCAPED_SEQUENCES.items():
+            if not (one(v) and one(k, 2)):
+                raise Shape(f"{cname}.ESCAPED_SEQUENCES entry {v!r}: {k!r}")
+        es = [(v, k[0], k[1]) for v, k in cls.ESCAPED_SEQUENCES.items()]
+        bd = pairs(body.items(), cname + " class-body UNESCAPED_SEQUENCES")
+        vals = {x[2] for x in un + bd + pairs(dflt, "default")}
+        recs.append({"name": cname, "strEsc": list(tk.STRING_ESCAPES), "byteEsc": list(tk.BYTE_STRING_ESCAPES), "body": bd,
+                     "printable": sorted(v for v in vals if v.isprintable()),
+                     "supports": bool(cls.STRINGS_SUPPORT_ESCAPED_SEQUENCES), "byteSupports": bool(cls.BYTE_STRINGS_SUPPORT_ESCAPED_SEQUENCES),
+                     "unesc": un, "escaped": es, "cls": cls})
+    return pairs(dflt, "default"), recs
+
+
+def seq_lean(items) -> str:
+    return "[" + ", ".join(f"(({ch(a)}, {ch(b)}), {ch(v)})" for a, b, v in items) + "]"
+
+
 def translate(chk: Check) -> str:
     lines = [
         "-- GENERATED by vf/props/c04.py from the live tokenizer cores / generator objects of every dialect and the ast of",
         "-- sqlglot/generator.py. Do not edit.",
         "import SqlglotModel.Model.StrLex",
+        "import SqlglotModel.Model.StrDerive",
         "namespace SqlglotModel.Generated.C04",
         "open SqlglotModel.Str",
         "",
@@ -586,6 +656,34 @@ def translate(chk: Check) -> str:
     sites = identifier_sites()
     lines.append("-- every Identifier(...) construction in sqlglot/expressions/*.py; anything but to_identifier bypasses the automatic quoting")
     lines.append("def identifierSites : List String := [" + ", ".join(lean_str(x) for x in sites) + "]")
+    try:
+        dflt, recs = esc_records(chk)
+    except Shape as e:
+        chk.broken.append({"kind": "translator", "what": f"C04 translator: structure changed (escape-table derivation): {e}"})
+        dflt, recs = [], []
+    lines.append("-- inputs and outputs of the _Dialect metaclass derivation of the escape tables, one record per dialect class")
+    lines.append(f"def escDefault : List (Seq2 × Char) := {seq_lean(dflt)}")
+    rl = []
+    for r in recs:
+        esc = "[" + ", ".join(f"({ch(v)}, ({ch(a)}, {ch(b)}))" for v, a, b in r["escaped"]) + "]"
+        rl.append(f"  {{ name := {lean_str(r['name'])},\n    body := {{ strEsc := {chars(r['strEsc'])}, byteEsc := {chars(r['byteEsc'])}, unescBody := {seq_lean(r['body'])} }},\n"
+                  f"    printable := {chars(r['printable'])},\n"
+                  f"    observed := {{ supports := {lean_bool(r['supports'])}, byteSupports := {lean_bool(r['byteSupports'])},\n"
+                  f"                  unesc := {seq_lean(r['unesc'])},\n                  escaped := {esc} }} }}")
+    lines.append("def escRecords : List EscRecord := [\n" + ",\n".join(rl) + "\n]")
+    # which derivation record feeds which pairing: (cfg, generator dialect class, tokenizer dialect class)
+    ties = []
+    by_un = [(r["name"], r["cls"]) for r in recs]
+    for label, rec in table.items():
+        L = live("" if label == "base" else label)
+        gname = type(L["gen_str"].dialect).__name__
+        for k, (ok, cfg) in enumerate(rec["str"]):
+            core = L["cores"]["str"][k]
+            tname = next((n for n, c in by_un if c.UNESCAPED_SEQUENCES is core.unescaped_sequences), None) or \
+                next((n for n, c in by_un if c.UNESCAPED_SEQUENCES == core.unescaped_sequences), "?")
+            ties.append(f"({cname(cfg)}, {lean_str(gname)}, {lean_str(tname)})")
+    lines.append("def cfgTies : List (Cfg × String × String) := [" + ", ".join(ties) + "]")
+    chk.cov["escape_derivation_records"] = len(recs)
     ovr, dsites, trf = quoting_overrides()
     lines.append("-- dialect-generator overrides of quoting methods, functions touching delimiter attributes, TRANSFORMS of literal-like nodes (ast)")
     lines.append("def quotingOverrides : List String := [" + ", ".join(lean_str(x) for x in ovr) + "]")
@@ -642,7 +740,7 @@ def real_scan_comment(core, body: str) -> str:
     return "some " + str(len(sql) - core._current)
 
 
-BASE_ALPHA = ["'", '"', "`", "\\", "[", "]", "$", "/", "*", "-", "#", "{", "}", "+", "%", "_", "\n", "\r", "\x00", "\t", " ",
+BASE_ALPHA = ["'", '"', "`", "\\", "[", "]", "$", "/", "*", "-", "#", "{", "}", "+", "%", "_", "\n", "\r", "\x00", "\t", " ", "\x07", "\x08", "\x0b", "\x0c", "\x1b",
               "a", "n", "0", "Z", "b", "r", "t", "v", "é", "😀", " ", "\x85", "\xa0", ";", ":", "@", "?", "(", ")", ",", ".", "="]
 
 
@@ -1544,6 +1642,53 @@ def consider_api(chk: Check, d, name: str, v: str, opts: dict | None = None) -> 
     return True
 
 
+def oracle_reparse(d, v: str):
+    """identifier paths beyond identifier_sql: a table / column built from quoted parts named v is written, split again by
+    exp.to_table / exp.to_column (the dialect's parser) and written again — the text must be the same and no part may be
+    lost or split.  BigQuery splits dotted names inside one pair of backticks by design: excluded."""
+    _, exp, *_ = sg()
+    d = d or None
+    if v == "" or (d == "bigquery" and "." in v):
+        return None
+    try:
+        t = exp.table_(v, db=v, catalog=v, quoted=True)
+        c = exp.column(v, table=v, quoted=True)
+        ts, cs = t.sql(dialect=d), c.sql(dialect=d)
+    except Exception as ex:  # noqa
+        return "error", f"generation raised {type(ex).__name__}"
+    try:
+        t2 = exp.to_table(ts, dialect=d)
+        c2 = exp.to_column(cs, dialect=d)
+        ts2, cs2 = t2.sql(dialect=d), c2.sql(dialect=d)
+    except Exception as ex:  # noqa
+        return "error", f"to_table/to_column({ts!r} / {cs!r}) raised {type(ex).__name__}: {str(ex)[:60]}"
+    if ts2 != ts or len(list(t2.parts)) != 3:
+        return "wrong-text", f"to_table({ts!r}) is written back as {ts2!r}"
+    if cs2 != cs:
+        return "wrong-text", f"to_column({cs!r}) is written back as {cs2!r}"
+    return None
+
+
+def consider_reparse(chk: Check, d, v: str) -> bool:
+    if not single_ok(d, "identifier", v) or oracle_reparse(d, v) is None:
+        return False
+    changed = True
+    while changed:
+        changed = False
+        for size in range(max(1, len(v) - 1), 0, -1):
+            for i in range(0, len(v) - size + 1):
+                cand = v[:i] + v[i + size:]
+                if single_ok(d, "identifier", cand) and oracle_reparse(d, cand) is not None:
+                    v, changed = cand, True
+                    break
+            if changed:
+                break
+    verdict, what = oracle_reparse(d, v)
+    chk.report_violation(f"reparse:{verdict}:{skeleton(v)}", f"[{d or 'base'}] quoted dotted name: {what}",
+                         {"dialect": d, "kind": "reparse", "value": v}, {"dialect": d or "base"})
+    return True
+
+
 API_ADV = ["first name", "a-b", "x, (SELECT secret FROM creds) AS y", 'a"b', "a'b", "a`b", "a]b", "r\n", "a\\", "1x", "select", "a.b", "",
            "a\nb", "$1", "a--b", "a/*b", "é x", "x' OR 1=1 -- ", "\\' OR 1=1 -- ", "*/ x /*", "a;b"]
 
@@ -1580,6 +1725,16 @@ def search(chk: Check, hints: list, budget_s: float) -> None:
                     if c not in a:
                         a.append(c)
         per[label] = a
+    extras = []
+    for label, rec in chk._c04_table.items():
+        for kind in ("str", "byte"):
+            for ok, cfg in rec[kind]:
+                for c in [k for k, _, _ in cfg["escSeq"]] + [v for _, _, v in cfg["unesc"]] + [b for _, b, _ in cfg["unesc"]]:
+                    if c not in extras:
+                        extras.append(c)
+    for c in ["\x07", "\x08", "\x0b", "\x0c", "\x1b", "\x00"]:
+        if c not in extras:
+            extras.append(c)
     exh = chk.pick(2, 3)
     order = list(names)
     rng.shuffle(order)
@@ -1589,6 +1744,14 @@ def search(chk: Check, hints: list, budget_s: float) -> None:
             for tup in itertools.product(a, repeat=n):
                 v = "".join(tup)
                 for kind in ["string", "identifier"] + (id_flag_kinds() if n <= 2 else []):
+                    if len(chk.violations) >= 5:
+                        break
+                    tried += 1
+                    found += consider(chk, d, kind, v, {})
+        # every character that any escape table of any dialect mentions (BEL, VT, NUL, …): alone and next to each delimiter
+        for e in extras:
+            for v in [e] + [e + x for x in a[:6]] + [x + e for x in a[:6]]:
+                for kind in ("string", "identifier"):
                     if len(chk.violations) >= 5:
                         break
                     tried += 1
@@ -1609,6 +1772,12 @@ def search(chk: Check, hints: list, budget_s: float) -> None:
     # the builder API: every entry point with the adversarial names/values, every dialect
     api_names = list(api_entries())
     for d in order:
+        for v in API_ADV + ["a.b", "x.y.z", ".", "a..b", "a b.c", "#t", "é.x"]:
+            if len(chk.violations) < 5:
+                tried += 1
+                chk.count("search:reparse")
+                found += consider_reparse(chk, d, v)
+    for d in order:
         for name in api_names:
             for v in (API_ADV[:9] if chk.quick else API_ADV):
                 if len(chk.violations) >= 5:
@@ -1619,6 +1788,11 @@ def search(chk: Check, hints: list, budget_s: float) -> None:
     optsets = [{}, {}, {"pretty": True}, {"identify": True}, {"pretty": True, "identify": True}, {"comments": True, "pretty": True}]
     while time.time() - t0 < budget_s and len(chk.violations) < 5:
         d = rng.choice(names)
+        if rng.random() < 0.05:
+            tried += 1
+            chk.count("search:reparse")
+            found += consider_reparse(chk, d, rand_text(rng, per.get(d or "base", BASE_ALPHA) + [".", "#", "a"], 8))
+            continue
         if rng.random() < 0.2:
             a = per.get(d or "base", BASE_ALPHA)
             v = rng.choice(API_ADV) if rng.random() < 0.3 else rand_text(rng, a if rng.random() < 0.5 else BASE_ALPHA, 16)
@@ -1695,7 +1869,9 @@ def replay(path: str) -> int:
     if not r:
         print(json.dumps(rec, indent=1))
         return 1
-    if r.get("kind") == "api":
+    if r.get("kind") == "reparse":
+        res = oracle_reparse(r["dialect"], r["value"])
+    elif r.get("kind") == "api":
         res = oracle_api(r["dialect"], r["entry"], r["value"], r.get("opts", {}))
     elif r.get("kind") == "statement":
         res = oracle_stmt(r["dialect"], r["spec"])
